@@ -7,6 +7,8 @@
 (* Proof.Engine_Gen: the record layout / needsBuilding order / cache-key parts regenerated from the source *)
 From PlzV Require Import Proof.Engine_Gen.
 From PlzV Require Import Base.Harness Model.Engine Model.C01 Proof.Engine Proof.C03 Proof.C01.
+(* follow-up (seeded mutations m2 / m3): named tools in the cache key, the restore step, the path hasher's memo *)
+From PlzV Require Import Model.C02 Proof.C02.
 
 Definition C02_statement : Prop :=
   (* after any history of builds with the cache on or off and rm -rf plz-out at any point (one shared cache
@@ -119,3 +121,90 @@ Proof.
     + intros t Ht. cbn in Ht. destruct Ht as [<-|[<-|[<-|[<-|[<-|[<-|[]]]]]]]; reflexivity.
     + intros t Ht. cbn in Ht. destruct Ht as [<-|[<-|[<-|[<-|[<-|[<-|[]]]]]]]; reflexivity.
 Qed.
+
+(* ------------------------------------------------------------------------------------------ *)
+(* Follow-up of the seeded mutations C02/m2 and C02/m3.  "An artifact is never restored for a target whose current inputs
+   differ from those it was stored under", for the inputs the Trust proofs leave out (tools) and for the mechanism the
+   engine model abstracts (the memoised path hasher). *)
+
+(* the cache key (label, rule key, source key) separates the outputs of the tools - list-form and dict-form (named): equal
+   source keys force equal path-hash streams of every output of every tool; so an entry stored when some tool output was
+   different is not found under the current key.  Holds because sourceHash ranges over AllTools() (Gen: source_hash_tools) *)
+Theorem C02_tool_key :
+  (forall r1 r2 st1 st2 t k, length (iter_sources r1 t) = length (iter_sources r2 t) ->
+     source_key r1 st1 t = Some k -> source_key r2 st2 t = Some k ->
+     map (fun p => option_map stream (read r1 st1 p)) (tool_paths r1 t)
+     = map (fun p => option_map stream (read r2 st2 p)) (tool_paths r2 t))
+  /\ (forall r st0 st t k0 k p, source_key r st0 t = Some k0 -> source_key r st t = Some k -> In p (tool_paths r t) ->
+        option_map stream (read r st0 p) <> option_map stream (read r st p) -> k0 <> k)
+  /\ (forall r st0 rn t k0 k p v, source_key r st0 t = Some k0 -> source_key r (rn_st rn) t = Some k -> In p (tool_paths r t) ->
+        option_map stream (read r st0 p) <> option_map stream (read r (rn_st rn) p) ->
+        forall stc, s_cache (set_cache stc (t_label t) ((t_defkey t, []), k0) v) (t_label t) ((t_defkey t, []), k)
+                    = s_cache stc (t_label t) ((t_defkey t, []), k)).
+Proof.
+  split; [exact source_key_tool_streams|]. split; [exact tool_output_change_changes_key|exact stale_tool_entry_not_restored].
+Qed.
+Print Assumptions C02_tool_key.
+
+(* the restore step of the engine: no command runs, and what anybody reads afterwards at the restored paths - a dependent's
+   source key goes through Engine.read - are the restored trees, carrying the record of the current key *)
+Theorem C02_restore_step :
+  forall r rn t sk cached,
+    needs_build r (rn_st rn) t = true -> source_key r (rn_st rn) t = Some sk ->
+    s_cache (rn_st rn) (t_label t) ((t_defkey t, []), sk) = Some cached -> NoDup (map fst cached) ->
+    let rn' := build_rule true r rn t in
+    rn_log rn' = rn_log rn
+    /\ forall o n, In (o, n) cached ->
+         read r (rn_st rn') (true, out_rel t o) = Some n
+         /\ rec_at (rn_st rn') (out_rel t o) = Some ((t_defkey t, []), sk).
+Proof. exact restore_reads_restored. Qed.
+Print Assumptions C02_restore_step.
+
+(* the engine model reads plz-out freshly; the real path hasher is memoised.  Model/C02.v: for EVERY trace of file changes
+   behind the hasher's back, hashes (with or without recalc) and moves, the memo is the hash of what is on disk at every path
+   outside the stale set (written since and not re-hashed with recalc); the restore path of buildTarget (hash the old outputs,
+   swap the files, hash again with the recalc arguments of the source) leaves no output stale, and a dependent's
+   Hash(path, recalc = false) returns the hash of the restored tree whatever was memoised before; with recalc = false in the
+   second pass it returns the old hash (the A, B, A witness) *)
+Theorem C02_memo :
+  (forall evs h s0, coherent_off s0 h -> coherent_off (stale_after evs h s0) (run_evs evs h))
+  /\ (forall single_file k news h s0 p, In p (map fst news) -> ~ In p (stale_after (restore_trace single_file k news) h s0))
+  /\ (forall single_file k news h, NoDup (map fst news) ->
+        forall p v, In (p, v) news -> seen (run_evs (restore_trace single_file k news) h) p = Some v)
+  /\ (seen (run_evs (restore_trace_with true false 2 m2_news) m2_before) (s "o1") = Some (s "B1")
+      /\ h_fs (run_evs (restore_trace_with true false 2 m2_news) m2_before) (s "o1") = Some (s "A1")).
+Proof.
+  split; [exact memo_coherent_off_stale|]. split; [exact restore_leaves_no_output_stale|].
+  split; [exact restore_memo_fresh|exact restore_without_recalc_is_stale].
+Qed.
+Print Assumptions C02_memo.
+
+(* Non-vacuity.  (1) A user of a DICT-form tool: tree A, rm -rf plz-out, tree B (only the tool's source differs): the user is
+   not restored from A's entry - both commands run and the output is built with B's tool; back at A after another rm -rf
+   plz-out everything comes from the cache. *)
+Definition nt_gen : target := mkT (s "//p:gen") (s "p") (Genrule Concat) [SFile (s "g.txt")] [s "gen.out"] (s "kg").
+Definition nt_use : target := mkT (s "//p:usen") (s "p") (Genrule UseNTool) [SFile (s "u.txt"); STool (s "//p:gen")] [s "usen.out"] (s "ku").
+Definition nt_rA : repo := mkR [(s "p/g.txt", s "1"); (s "p/u.txt", s "u")] [nt_gen; nt_use].
+Definition nt_rB : repo := mkR [(s "p/g.txt", s "2"); (s "p/u.txt", s "u")] [nt_gen; nt_use].
+Example C02_tool_key_nonvacuous :
+  let stA := run_history [HBuild true nt_rA [s "//p:usen"]] empty_store in
+  let rnB := plz_build true nt_rB [s "//p:usen"] (wipe stA) in
+  named_tools nt_use = true
+  /\ tool_paths nt_rB nt_use = [(true, s "p/gen.out")]
+  /\ rn_log rnB = [s "//p:usen"; s "//p:gen"]
+  /\ outs_of (rn_st rnB) nt_use = [(s "usen.out", Some (File false (s "2u")))]
+  /\ rn_log (plz_build true nt_rA [s "//p:usen"] (wipe (rn_st rnB))) = []
+  /\ outs_of (rn_st (plz_build true nt_rA [s "//p:usen"] (wipe (rn_st rnB)))) nt_use = [(s "usen.out", Some (File false (s "1u")))].
+Proof. vm_compute. repeat split. Qed.
+
+(* (2) the restore step over existing outputs: A, B, then A with plz-out KEPT: a needs building, its entry of state A is in the
+   cache, plz-out holds the state-B output *)
+Example C02_restore_step_nonvacuous :
+  let st := run_history [HBuild true nv_rA [s "//p:b"]; HBuild true nv_rB [s "//p:b"]] empty_store in
+  let r := restrict nv_rA [s "//p:b"] in
+  needs_build r st nv_a = true
+  /\ option_map (fun sk => s_cache st (t_label nv_a) ((t_defkey nv_a, []), sk)) (source_key r st nv_a)
+     = Some (Some [(s "a.out", File false (s "1"))])
+  /\ out_of st nv_a (s "a.out") = Some (File false (s "9"))
+  /\ outs_of (rn_st (plz_build true nv_rA [s "//p:b"] st)) nv_b = [(s "b.out", Some (File false (s "12")))].
+Proof. vm_compute. repeat split. Qed.
